@@ -215,7 +215,7 @@ def check_return_sites(ctx):
   lp = mk.m["drop-inapplicable"]
   lid = cfg.node_of(lp)
   rets = [r for r in own_nodes(f.node) if isinstance(r, ast.Return) and r.value is not None and unparse(r.value) == "isd_element"]
-  ctx.floor("ORD-applicable", "`return isd_element` sites", len(rets), 2)
+  ctx.floor("ORD-applicable", "`return isd_element` sites", len(rets), 1)
   for r in rets:
     ctx.check(lid in dom.get(cfg.node_of(r), ()), "ORD-applicable", f"{f.qualname}|return at +{r.lineno - f.node.lineno} follows the applicability filter",
               ctx.where(f.module, r), "dominated by the inapplicable-style removal", "an ISD element is returned without passing the removal of inapplicable styles")
